@@ -43,7 +43,7 @@ package queueing
 //@   label C15.occ.len
 //@   ensures len(result) == off[maxStage + 2] && fresh(result)
 //@   label C15.occ.rows
-//@   ensures off[minStage] == 0 && off[maxStage] == (maxStage - minStage) * p.width && goffStep(off, p.width, minStage - 1, maxStage + 2) && goffMono(off, p.width, minStage, maxStage + 3)
+//@   ensures off[minStage] == 0 && off[maxStage] == (maxStage - minStage) * p.width && goffDef(off, minStage, p.width, minStage - 1, maxStage + 3) && goffMono(off, p.width, minStage, maxStage + 3)
 //@   label C15.occ.sound
 //@   ensures occSound(p, result, off)
 //@   label C15.occ.complete
@@ -178,12 +178,11 @@ package queueing
 // Rows are at least `width` apart (goffMono): with 0 <= Lane < width this makes the slot of a (stage, lane) pair
 // injective by linear reasoning only. slotG(j) = slot of record j.
 //@ func slotG(p, goff, j) = goff[p.stages[j].Stage] + p.stages[j].Lane
-//@ pred goffStep(goff, w, lo, hi) = forall s in lo..hi :: goff[s + 1] == goff[s] + w
+// (a recurrence goff[s+1] == goff[s] + w would be linear, but it is a matching loop: every solver diverges on it)
+//@ pred goffDef(goff, base, w, lo, hi) = forall s in lo..hi :: goff[s] == (s - base) * w
 //@ pred goffMono(goff, w, lo, hi) = forall a int, b int :: lo <= a && a < b && b < hi ==> goff[a] + w <= goff[b]
-// the same for the records against the row of the stage being scanned (single bound variable), and lane/stage distinctness as ONE
-// two-variable quantifier (the nested form of distinctOK instantiates in two steps)
+// the same for the records against the row of the stage being scanned (single bound variable)
 //@ pred rowSep(p, goff, stage) = forall j in 0..len(p.stages) :: (p.stages[j].Stage < stage ==> goff[p.stages[j].Stage] + p.width <= goff[stage]) && (p.stages[j].Stage > stage ==> goff[stage] + p.width <= goff[p.stages[j].Stage])
-//@ pred distinctFlat(p) = forall a int, b int :: 0 <= a && a < len(p.stages) && 0 <= b && b < len(p.stages) && a != b ==> !(p.stages[a].Lane == p.stages[b].Lane && p.stages[a].Stage == p.stages[b].Stage)
 // the occupancy table is exact: every record's slot is set (occSound); a set slot k is held by record own[k] (occOwned)
 //@ pred occSound(p, occ, goff) = forall j in 0..len(p.stages) :: occ[slotG(p, goff, j)]
 //@ pred occOwned(p, occ, goff, own) = forall k in 0..len(occ) :: occ[k] ==> 0 <= own[k] && own[k] < len(p.stages) && slotG(p, goff, own[k]) == k
@@ -219,12 +218,11 @@ package queueing
 //@   loop 0: backedge goff = goff
 //@   loop 0: invariant minStage - 1 <= stage && stage <= maxStage && maxStage <= lastStage - 1 && lastStage == p.numStages - 1 && occBase == minStage && 0 <= minStage && n == len(p.stages)
 //@   loop 0: invariant advFrame(p) && fresh(occ)
-//@   loop 0: invariant goffStep(goff, p.width, minStage - 1, maxStage + 3)
+//@   loop 0: invariant goffDef(goff, minStage, p.width, minStage - 1, maxStage + 4)
 //@   loop 0: invariant goffMono(goff, p.width, minStage, maxStage + 4)
 //@   loop 0: invariant goff[minStage] == 0 && len(occ) == goff[maxStage + 3] && goff[stage + 1] == (stage + 1 - occBase) * p.width && 0 <= goff[stage + 1] && goff[stage + 1] + p.width <= len(occ)
 //@   loop 0: invariant recsOK(p) && stagesIn(p, minStage, maxStage + 1) && advRange(p, minStage, maxStage)
 //@   loop 0: invariant distinctOK(p)
-//@   loop 0: invariant distinctFlat(p)
 //@   loop 0: invariant occSound(p, occ, goff)
 //@   loop 0: invariant recKeep(p)
 //@   loop 0: invariant forall j in 0..len(p.stages) :: old(p.stages)[j].Stage <= stage || old(p.stages)[j].Stage > maxStage ==> recSame(p, j)
@@ -234,7 +232,7 @@ package queueing
 //@   loop 1: invariant advFrame(p) && fresh(occ)
 //@   loop 1: invariant goff[stage + 1] == (stage + 1 - occBase) * p.width && goff[stage] == (stage - occBase) * p.width && 0 <= goff[stage] && goff[stage + 1] == goff[stage] + p.width && goff[stage + 1] + p.width <= len(occ)
 //@   loop 1: invariant recsOK(p) && stagesIn(p, minStage, maxStage + 1)
-//@   loop 1: invariant distinctFlat(p)
+//@   loop 1: invariant distinctOK(p)
 //@   loop 1: invariant rowSep(p, goff, stage)
 //@   loop 1: invariant occSound(p, occ, goff)
 //@   loop 1: invariant recKeep(p)
